@@ -170,6 +170,29 @@ def _read_members(fn: FunctionInfo, param: str) -> Set[str]:
     return out
 
 
+def _always(fn: FunctionInfo, e: ast.AST) -> bool:
+    """the statement holding expression `e` lies on every path from the entry of fn to its normal exit"""
+    cfg = cfg_of(fn)
+    n = cfg.node_of(e)
+    return n is not None and cfg.must_pass(cfg.entry, cfg.exit, [n])
+
+
+def _unconditionally_written(fn: FunctionInfo) -> Set[str]:
+    out: Set[str] = set()
+    for n in fn_nodes(fn):
+        if isinstance(n, ast.Dict) and _always(fn, n):
+            out |= {k.value for k in n.keys if k is not None and isinstance(k, ast.Constant) and isinstance(k.value, str)}
+        if isinstance(n, ast.Subscript) and isinstance(n.ctx, ast.Store) and isinstance(n.slice, ast.Constant) and isinstance(n.slice.value, str) and _always(fn, n):
+            out.add(n.slice.value)
+    return out
+
+
+def _demanded_members(fn: FunctionInfo, param: str) -> Set[str]:
+    """members the reader subscripts on every path (`data["iv"]`): a document without them is refused with a KeyError"""
+    return {n.slice.value for n in fn_nodes(fn) if isinstance(n, ast.Subscript) and isinstance(n.ctx, ast.Load) and isinstance(n.slice, ast.Constant)
+            and isinstance(n.slice.value, str) and norm(n.value) == param and _always(fn, n)}
+
+
 def r04_3(ctx) -> None:
     eng = ctx.eng
     P = eng.prog
@@ -196,6 +219,19 @@ def r04_3(ctx) -> None:
                   construct=f"{kind} JSON writer members")
         ctx.check(read == want, "R04.3", ext, ext.node, f"{kind} JSON reader members", f"{kind} JSON reader consumes {sorted(read)}; the writer emits {sorted(written)}", f"= {sorted(want)}",
                   construct=f"{kind} JSON reader members")
+        # R04.16 sibling agreement on optionality: a member the reader demands on every path is written on every path
+        # (an empty ciphertext / iv / tag is still a member: dropping it when empty makes the library refuse its own output)
+        demanded = set()
+        for h in helpers_e:
+            for p in h.params:
+                demanded |= _demanded_members(h, p)
+        always = set().union(*[_unconditionally_written(h) for h in helpers_r])
+        lost = sorted((demanded & want) - always)
+        ctx.check(not lost, "R04.16", rep, rep.node, f"{kind} JSON :: members demanded by the reader are always written",
+                  f"{kind} JSON reader subscripts {lost} unconditionally but the writer stores {'it' if len(lost) == 1 else 'them'} only under a condition: "
+                  f"a message whose {(lost or ['?'])[0]} is empty serialises to a document the library itself refuses", f"{sorted(demanded & want)} written on every path",
+                  construct=f"{kind} JSON required members")
+        ctx.count("R04.16", len(demanded & want), 4, f"members the {kind} JSON reader demands on every path")
     # optional members are written when (not unless) their value is present
     nst = 0
     for h in (f("represent_general_json"), f("represent_flattened_json"), rep_common):
